@@ -906,6 +906,9 @@ impl<'a> Interp<'a> {
 
     fn block(&mut self, stmts: &'a [Stmt]) -> Result<(), Stop> {
         for s in stmts {
+            // the library runs statements lazily: once the caller has stopped pulling (step
+            // cap) nothing that follows the last yielded row has been executed
+            self.check_cap()?;
             let stmt_id = self.stmt_counter_of(s);
             match s {
                 Stmt::Let(name, e) => {
@@ -940,6 +943,7 @@ impl<'a> Interp<'a> {
                 Stmt::While(cond, body) => {
                     let mut first = true;
                     loop {
+                        self.check_cap()?;
                         if self.reads_device(cond) {
                             self.probe(Probe::DeviceSteeredWhile);
                         }
